@@ -59,11 +59,14 @@ CLAIM = dict(
          '(also the module-level default info), each call judged against a recount from the cache contents at its entry, Y0 '
          'bit-identical; edges (budget = cumulative batch size -1 / 0 / +1, m = 1, nswp 0 / 1, mode size 1, d = 2, saturated '
          'ranks with dr_min >= 1, e equal to a reported value and one ulp below / above, objective x 2^-1000..2^500, Y0 x '
-         '2^-300..2^100). Kept OUT of the verdict (reported to the lead, enabled by VERIF_C06_STRICT_FORMS=1): an objective that '
-         'modifies its batch in place WITH a cache (cross raises KeyError: _func_eval reads I_new after the call), a callback '
-         'returning 1 or np.bool_(True) (ignored: the code tests `is True`, the docstring says "a true value"), and rescalings '
-         'beyond about 2^520 (objective) / 2^200 per core (Y0) where teneva.accuracy overflows (stabilised-arithmetic finding '
-         'family of C04 / C16) and cross raises OverflowError.',
+         '2^-300..2^100). The callback stops the run iff its answer is TRUE-ish '
+         '(True / 1 / np.bool_(True) / non-empty list / non-empty str / non-zero np.float64 stop; False / 0 / np.bool_(False) / '
+         'None / empty str / 0.0 do not): strict part of correspondence and search since the repair d12f1ba (`if cb(...)`); the '
+         'model callback is the truthiness of the answer. Documented exclusions: an objective that modifies its batch in place '
+         'WITH a cache is user misuse (cross raises KeyError, _func_eval reads I_new after the call) - observation only, enabled '
+         'by VERIF_C06_STRICT_FORMS=1; exact rescalings are kept within 2^+-500 (objective; down to 2^-1000) and 2^+-150 per '
+         'core (Y0): beyond that teneva.accuracy / core_stab overflow (root cause of the C04 / C16 known findings) and cross '
+         'raises OverflowError, which is outside the clauses of C06.',
     technique='Coq proof (inductive invariant over a small-step machine, schedule of the program counter, progress '
               'measure m + m_cache) + exact replay correspondence + fault enumeration (every budget / every None '
               'position / every callback sweep) + independent recount oracle on the implementation')
@@ -134,7 +137,10 @@ def correspondence(R, ctx):
     items, dist = [], dict(kinds={}, d={}, cache=0, vld=0, faults=0, rejected=0, stops={})
     cfgs = []
     for _ in range(1500 if thorough else 260):
-        cfgs.append(('rand', L.gen_cfg(rng)))
+        c = L.gen_cfg(rng)
+        if c.get('kcb') is not None and rng.random() < 0.6:
+            c['forms'] = dict(cb=rng.choice(CB_FORM_NAMES))
+        cfgs.append(('rand', c))
     # degenerate objectives (exactly zero fibres): delta / block-sparse / zero / zero unless i_0 = 0
     for fam in ('delta', 'block', 'zero', 'i0'):
         for cache in (True, False):
@@ -153,6 +159,9 @@ def correspondence(R, ctx):
         if j % 2:
             c0['cache'] = []
         fam = fault_family(tn, c0)
+        for c in fam:
+            if c.get('kcb') is not None:
+                c['forms'] = dict(cb=rng.choice(CB_FORM_NAMES))
         dist['faults'] += len(fam)
         cfgs += [('fault', c) for c in fam]
     # argument validation: every combination of missing criteria
@@ -267,18 +276,22 @@ DOCUMENTED_FORMS = [
     ('objective increments its batch (no cache)', dict(mutate='inc'), 'nocache'),
     ('info omitted', dict(info='omitted'), None), ('cache omitted', dict(cache='omitted'), 'nocache'),
     ('I_vld / y_vld lists', dict(vld='list'), 'vld'), ('I_vld int32', dict(vld='int32'), 'vld'),
+    # the callback stops the run iff its answer is true (docstring: "returns a true value"; repaired in d12f1ba)
+    ('cb returns 1 / 0', dict(cb='1'), 'cb'), ('cb returns np.bool_', dict(cb='np.bool_'), 'cb'),
+    ('cb returns non-empty list / None', dict(cb='obj'), 'cb'), ('cb returns str / empty str', dict(cb='str'), 'cb'),
+    ('cb returns np.float64 2.5 / 0.0', dict(cb='np.float64'), 'cb'),
 ]
+CB_FORM_NAMES = ['True', '1', 'np.bool_', 'obj', 'str', 'np.float64']
 UNDOCUMENTED_FORMS = [      # may raise, must never silently return something else
     ('Y0 tuple', dict(Y0='tuple', undocumented=True), None),
     ('objective returns tuple', dict(ret='tuple', undocumented=True), None),
     ('objective returns column vector', dict(ret='col', undocumented=True), None),
 ]
-# forms on which the unchanged tree does not do what a reader of the docstring expects; reported to the lead, kept out
-# of the verdict unless VERIF_C06_STRICT_FORMS is set (see CLAIM note)
+# documented exclusions (lead's decision): an objective that modifies its batch in place with a cache is user misuse
+# (cross raises KeyError) - observation only, enabled by VERIF_C06_STRICT_FORMS (see CLAIM note)
 STRICT_ONLY_FORMS = [
     ('objective zeroes its batch (cache)', dict(mutate='zero'), 'cache'),
     ('objective increments its batch (cache)', dict(mutate='inc'), 'cache'),
-    ('cb returns 1', dict(cb='1'), 'cb'), ('cb returns np.bool_', dict(cb='np.bool_'), 'cb'),
 ]
 
 
@@ -437,7 +450,7 @@ def gen_edges(tn, rng):
     # reported to the lead, kept out of the families
     for k in rng.sample([-1000, -500, -100, -30, 30, 100, 500], 3):
         out.append(dict(base, sc2=k))
-    out.append(dict(base, sc2Y=rng.choice([-300, -100, 100])))
+    out.append(dict(base, sc2Y=rng.choice([-150, -100, 100, 150])))
     return out
 
 
@@ -553,6 +566,10 @@ def judge(cfg, o):
         return fail('stop e with value above threshold', got=info['e'], expected=cfg['e'])
     if stop == 'e_vld' and not (cfg['e_vld'] is not None and 0 <= info['e_vld'] <= cfg['e_vld']):
         return fail('stop e_vld with value above threshold', got=info['e_vld'], expected=cfg['e_vld'])
+    if o.get('cbans') and any(o['cbans'][:-1]):
+        return fail('the callback returned a true value but the run went on', got=[o['cbans'], stop, info['nswp']])
+    if stop == 'cb' and not (o.get('cbans') and o['cbans'][-1]):
+        return fail('stop cb although the last answer of the callback was not true', got=[o.get('cbans'), info['nswp']])
     if stop == 'cb' and not (o['cbrec'] and o['cbrec'][-1] == cfg['kcb'] == info['nswp']):
         return fail('stop cb but the callback did not just return True', got=[o['cbrec'], info['nswp']])
     if cfg.get('kcb') is not None and cfg['kcb'] in o['cbrec'] and stop not in ('cb', 'conv'):
@@ -614,7 +631,10 @@ def search(R, ctx, deep, hints):
         except Exception:
             pass
     for _ in range(1500 if deep else 250):
-        cand.append(L.gen_cfg(rng))
+        c = L.gen_cfg(rng)
+        if c.get('kcb') is not None and rng.random() < 0.6:
+            c['forms'] = dict(cb=rng.choice(CB_FORM_NAMES))
+        cand.append(c)
     for _ in range(60 if deep else 12):
         cand.append(L.gen_prio(rng))
     # degenerate objectives (zero fibres): every family x cache x dr_min, small budgets too
